@@ -1,7 +1,7 @@
 """C05 - each block fits its contents and is freed once with the layout it was requested."""
 import itertools
 
-from .. import atomics, balance, cfg, core, layout, model, symx
+from .. import atomics, balance, cfg, core, inline, layout, model, symx
 from ..facts import operand_place
 from . import c07
 
@@ -446,11 +446,76 @@ def rule_free_type(ctx, rep):
                         why = "the pointer given to Box::from_raw is re-typed first (%s)" % symx.show(raw)
                     else:
                         why = "the pointer given to Box::from_raw is %s, not the handle's stored block pointer" % ptrclass.show(n)
+            if not ok and what == "dealloc":
+                ok2, why2 = _dealloc_free_type(F, E, b)
+                if ok2 is not None:
+                    ok, why = ok2, why2
             if ok:
                 rep.ok("R-FREE-TYPE", ik, cfg=tag)
             else:
                 rep.bad("R-FREE-TYPE", ik, why, F.loc(b, t["span"]), tag)
     rep.floor("R-FREE-TYPE", 1, "at least one free site (today two)")
+
+
+def _strip_place(e, casts):
+    """Strip address-of, trailing dereferences (and, if asked, pointer casts): the pointer an expression is about."""
+    while True:
+        if casts and e[0] == "cast":
+            e = e[2]
+        elif e[0] == "addr":
+            e = e[1]
+        elif e[0] == "proj" and e[2] and e[2][-1] == "*":
+            e = ("proj", e[1], tuple(e[2][:-1])) if len(e[2]) > 1 else e[1]
+        else:
+            return e
+
+
+def _dealloc_free_type(F, E, b):
+    """The open-coded release `dealloc(p as *mut u8, Layout::for_value(&*p))`, possibly inside the destructor of a private guard
+    value (`struct FreeOnDrop { inner, layout }`): judged in every function that drops such a guard, with constructor and
+    destructor of the guard inlined. p must be the handle's own stored, un-retyped block pointer, and the layout must be taken from
+    that very pointer (so it is the layout of the type - and length - the block was handed out as).
+    Returns (None, None) if this is not that shape at all."""
+    from .. import ptrclass
+
+    imp = b.get("impl") or {}
+    holders = [b]
+    if imp.get("trait") == "core::ops::drop::Drop" and F.handle_name(imp["self_ty"]) is None:
+        gp = F.ty(imp["self_ty"]).get("path")
+        holders = [c for c in F.body_list if c["key"] != b["key"] and F.ty((c.get("impl") or {}).get("self_ty", 0)).get("path") != gp and any(bl["term"]["k"] == "drop" and F.ty(bl["term"].get("ty", 0)).get("path") == gp for bl in c["blocks"])]
+        if not holders:
+            return False, "the freeing guard type is never dropped by a function of the crate"
+    N = ptrclass.Norm(F)
+    seen = 0
+    for hb in holders:
+        ib = inline.inlined_with_drops(F, hb["key"]) or hb
+        B = cfg.Body(ib)
+        for _bi, t in B.calls():
+            if model.classify(atomics.callee_of(t) or "")[0] != model.DEALLOC or len(t["args"]) < 2:
+                continue
+            seen += 1
+            raw = symx.expr(F, B, t["args"][0])
+            pe = _strip_place(raw, True)
+            n = N.norm(pe, {})
+            x = n
+            while x[0] == "stored":
+                x = x[1]
+            from . import c03
+
+            fresh = pe[0] == "call" and pe[1] in F.bodies and c03._is_alloc_helper(E, pe[1])  # a construction guard giving back a block no handle ever owned: the typed pointer the allocation helper returned
+            if not (n[0] == "stored" and x == ("arg", 1)) and not fresh:
+                return False, "in %s the pointer given to dealloc is %s, not the handle's stored block pointer" % (hb["key"], ptrclass.show(n))
+            le = symx.expr(F, B, t["args"][1])
+            if not (le[0] == "call" and le[1] in ("<core::alloc::layout::Layout>::for_value", "<core::alloc::layout::Layout>::for_value_raw") and le[3]):
+                return False, "in %s the layout given to dealloc is %s, not `Layout::for_value` of the block itself" % (hb["key"], symx.show(le))
+            if _strip_place(le[3][0], False) != pe:
+                return False, "in %s the layout given to dealloc is computed from %s, which is not the (un-retyped) pointer being freed (%s)" % (hb["key"], symx.show(le[3][0]), symx.show(pe))
+            gi = le[6] if len(le) > 6 else ()
+            if not gi or not F.is_adt(gi[0], F.inner_path):
+                return False, "in %s the layout given to dealloc is that of %s, not of the block type" % (hb["key"], le[4])
+    if not seen:
+        return None, None
+    return True, None
 
 
 def run(ctx, rep):
